@@ -546,6 +546,31 @@ def row_task(task):
         shutil.rmtree(d, ignore_errors=True)
 
 
+def bundle_task(tv):
+    """Worker: ONE call of the generic entry point with several equation sets (TLC 'bundle' state)."""
+    import cyecca.codegen as generic
+    order = list(tv["order"])
+    d = os.path.join(G["scratch"], "bundle_" + "_".join(s[:3] + str(len(s)) for s in order))
+    os.makedirs(d, exist_ok=True)
+    res = {"order": order, "ok": True, "error": None, "sets": {}}
+    try:
+        try:
+            with quiet():
+                generic.generate_code({s: dict(G["info"][s]["funcs"]) for s in order}, d)
+        except Exception as ex:     # noqa
+            res["ok"] = False
+            res["error"] = f"{type(ex).__name__}: {(str(ex).strip().splitlines() or [''])[-1][-300:]}"
+            return res
+        files = sorted(os.listdir(d))
+        for s in order:
+            cpath = os.path.join(d, s + ".c")
+            res["sets"][s] = {"files": files,
+                              "art": parse_artifact(cpath, os.path.join(d, s + ".h")) if os.path.exists(cpath) else None}
+        return res
+    finally:
+        shutil.rmtree(d, ignore_errors=True)
+
+
 # --------------------------------------------------------------------------------------
 # input patterns -> doubles
 # --------------------------------------------------------------------------------------
@@ -824,6 +849,26 @@ def replay(run, info, path):
     if d.get("kind") in ("main", "export"):
         print("replay: this finding is re-evaluated by the extraction step (already done above)")
         return run.finish({"traces_validated_against_impl": 1, "programs": 0, "disagreements_checked": 1})
+    if d.get("kind") == "bundle":
+        order = d["order"]
+        r = bundle_task({"order": order})
+        n = 0
+        if not r["ok"]:
+            run.violation(f"{order[0]}/generate/raises/bundle", f"generic generate_code fails on {'>'.join(order)}: {r['error']}", d)
+        else:
+            for t in order:
+                fb = info[t]["funcs"]
+                ftv = {"set": t, "file": t, "functions": [f.name() for f in fb.values()], "nin": [f.n_in() for f in fb.values()],
+                       "nout": [f.n_out() for f in fb.values()], "header": True, "memtable": False, "main": False, "mex": False,
+                       "cplusplus": False, "export": False, "mathh": True, "kind": "bundle", "gen": "generic", "passed": False,
+                       "keys": [], "vals": []}
+                if r["sets"][t]["art"] is None:
+                    run.violation(f"{t}/inventory/missing:*", f"no {t}.c written", d)
+                else:
+                    n += 1
+                    check_artifact(ftv, r["sets"][t]["art"], fb, lambda k, w, d_: run.violation(k, w, {**d_, "kind": "bundle", "order": order}),
+                                   lambda *a: None)
+        return run.finish({"traces_validated_against_impl": 1, "programs": n, "disagreements_checked": n, "replayed": path})
     tv0 = d["tv"]
     s = tv0["set"]
     f_by = info[s]["funcs"]
@@ -938,15 +983,17 @@ def main():
                 run.violation(f"{s}/inventory/duplicated:{n}",
                               f"TLC: invariant NoDuplicate violated -- {names.count(n)} exported functions of set '{s}' carry the "
                               f"CasADi name '{n}' (one C file cannot define the symbol twice)", {"kind": "export", "set": s, "name": n})
-    gen_states, eval_states = [], []
+    gen_states, eval_states, bundle_states = [], [], []
     for st in parse_dump(res["dump"]):
         tv = st["tv"]
-        if tv["op"] == "generate":
+        if tv["op"] == "bundle":
+            bundle_states.append(tv)
+        elif tv["op"] == "generate":
             gen_states.append(tv)
         elif tv["op"] == "eval":
             eval_states.append(tv)
-    if not gen_states or not eval_states:
-        raise MachineryError("vacuous coverage: TLC produced no generate/eval states")
+    if not gen_states or not eval_states or not bundle_states:
+        raise MachineryError("vacuous coverage: TLC produced no generate/eval/bundle states")
     for tv in gen_states:
         if tuple(tv["keys"]) != SPEC_KEYS[tv["gen"]] or SPEC_FILE[tv["set"]] != tv["file"] or SPEC_GEN[tv["set"]] != tv["gen"]:
             raise MachineryError(f"harness adapter table and spec disagree on {tv['set']}: {tv['keys']} {tv['file']} {tv['gen']}")
@@ -979,8 +1026,10 @@ def main():
         ctx = multiprocessing.get_context("fork")
         with ctx.Pool(NPROC) as pool:
             out = pool.map(row_task, [tasks[k] for k in order], chunksize=1 if tier == "quick" else 4)
+            bout = pool.map(bundle_task, bundle_states, chunksize=1)
     else:
         out = [row_task(tasks[k]) for k in order]
+        bout = [bundle_task(tv) for tv in bundle_states]
     results = dict(zip(order, out))
 
     # ---- verdicts
@@ -1025,6 +1074,30 @@ def main():
             art = parse_artifact(os.path.join(d, SPEC_FILE[s] + ".c"), os.path.join(d, SPEC_FILE[s] + ".h"))
             check_artifact({**tvd, "kind": "__main__"}, art, info[s]["funcs"], run.violation, run.spec_drift)
             n_art += 1
+
+    # ---- bundles: one call of the generic entry point with several sets; file <key>.c must hold exactly <key>'s functions
+    n_bundle = 0
+    for tv, r in zip(bundle_states, bout):
+        tag = ">".join(tv["order"])
+        if not r["ok"]:
+            run.violation(f"{tv['order'][0]}/generate/raises/bundle", f"generic generate_code fails on the set dictionary {tag}: {r['error']}",
+                          {"kind": "bundle", "order": list(tv["order"]), "error": r["error"]})
+            continue
+        for ftv in tv["files"]:
+            s = ftv["set"]
+            rs = r["sets"].get(s)
+            if rs is None or rs["art"] is None:
+                run.violation(f"{s}/inventory/missing:*", f"generic generate_code({tag}) wrote no {s}.c (files: {rs and rs['files']})",
+                              {"kind": "bundle", "order": list(tv["order"])})
+                continue
+            n_bundle += 1
+            n_art += 1
+            check_artifact(ftv, rs["art"], info[s]["funcs"],
+                           lambda k, w, d_, _o=list(tv["order"]): run.violation(k, w + f" [bundle {'>'.join(_o)}]", {**d_, "kind": "bundle", "order": _o}),
+                           run.spec_drift)
+    if n_bundle == 0 and not any("/bundle" in k or "inventory" in k for k in run.viol):
+        raise MachineryError("vacuous coverage: no bundle artefact was checked")
+    run.count("bundle_files_checked", n_bundle)
 
     # ---- coverage control
     # (a set whose artefacts cannot be generated/compiled at all is a violation already recorded above, not a
